@@ -422,6 +422,42 @@ fn c07_root(out: &mut Out, root: &Root, depth: u8, cap: u64, rng: &mut Rng) {
             }
         }
     }
+    // Stops at the very first poll on positions that were inner nodes of the finished search
+    // (one and two plies below the root), on the table that search left behind.
+    if depth >= 2 && full.depth_lines.len() >= 1 {
+        let mut targets: Vec<Root> = vec![];
+        let kids = shadow.legal_moves();
+        for m in kids.iter().take(16) {
+            let mut c = root.clone();
+            c.moves.push(m.uci());
+            targets.push(c);
+        }
+        for _ in 0..24 {
+            if kids.is_empty() {
+                break;
+            }
+            let m = rng.pick(&kids);
+            let p1 = shadow.make(m);
+            let g1 = p1.legal_moves();
+            if g1.is_empty() {
+                continue;
+            }
+            let m2 = rng.pick(&g1);
+            let mut c = root.clone();
+            c.moves.push(m.uci());
+            c.moves.push(m2.uci());
+            targets.push(c);
+        }
+        for t in targets {
+            let (Some(ts), Ok(tg)) = (t.shadow(), t.game()) else { continue };
+            let tl: Vec<String> = ts.legal_moves().iter().map(|x| x.uci()).collect();
+            let mut t2 = table.clone();
+            let r2 = search(out, &tg, &mut t2, Some(depth), 1, 3_000_000, false);
+            out.add("stopped_searches", 1);
+            out.add("first_poll_stops_on_inner_nodes_of_a_finished_search", 1);
+            judge_c07_warm(out, &t, &fen::render4(&ts), &tl, depth, 1, &r2, 0, Some(root));
+        }
+    }
     let (points, exhaustive) = stop_points(total, cap, rng);
     if exhaustive {
         out.add("roots_with_every_stop_point", 1);
@@ -586,6 +622,7 @@ pub fn run_c07(tier: &str, seed: u64) -> (Check, Agg) {
     chk.need("follow-up searches on the table an interrupted search left behind", agg.c("follow_up_searches_after_a_stop"), 2000);
     chk.need("follow-up searches of the node at which the stop landed", agg.c("follow_up_searches_at_the_stop_node"), 5000);
     chk.need("stops on a warm table after the game shuffled back", agg.c("stops_on_a_warm_table_after_shuffling_back"), 200);
+    chk.need("first-poll stops on inner nodes of a finished search", agg.c("first_poll_stops_on_inner_nodes_of_a_finished_search"), 2000);
     (chk, agg)
 }
 
@@ -600,7 +637,8 @@ pub fn replay_c07(case: &Value, out: &mut Out) {
     let mut table = new_table();
     if let Some(w) = Root::from_json(&case["warm_root"]) {
         if let Ok(wg) = w.game() {
-            let r0 = search(out, &wg, &mut table, Some(depth.saturating_sub(1).max(1)), 0, 5_000_000, false);
+            let wd = if root.moves.len() > w.moves.len() && root.moves.len() <= w.moves.len() + 2 { depth } else { depth.saturating_sub(1).max(1) };
+            let r0 = search(out, &wg, &mut table, Some(wd), 0, 5_000_000, false);
             println!("warm-up: {} searched to depth {} on the same table -> {:?}", w.json(), depth.saturating_sub(1).max(1), r0.result_text());
         }
     }
@@ -1247,6 +1285,55 @@ pub fn worker_c10(shard: usize, nshards: usize, seed: u64, tier: &str, out: &mut
         }
         out.end();
     }
+    // minor-piece endings: kings + one or two minor pieces for the attacker + one for the defender,
+    // defender's king on the edge (the only place such mates exist)
+    out.begin(&json!({"kind":"mate-minor","shard":shard}));
+    let nminor = if tier == "thorough" { 2_000_000u64 } else { 150_000 };
+    for _ in 0..nminor {
+        let mut p = Pos::empty();
+        let edge: Vec<u8> = (0..64u8).filter(|s| matches!(o::file_of(*s), 0 | 7) || matches!(o::rank_of(*s), 0 | 7)).collect();
+        let dk = *rng.pick(&edge);
+        let attacker_white = rng.chance(1, 2);
+        p.b[dk as usize] = o::mk(o::KING, !attacker_white);
+        // attacker's king two squares away
+        let (df, dr) = (o::file_of(dk), o::rank_of(dk));
+        let (af, ar) = (df + rng.below(5) as i8 - 2, dr + rng.below(5) as i8 - 2);
+        if !o::on_board(af, ar) || p.b[o::sq(af, ar) as usize] != o::EMPTY {
+            continue;
+        }
+        p.b[o::sq(af, ar) as usize] = o::mk(o::KING, attacker_white);
+        let minors = [o::KNIGHT, o::BISHOP];
+        let mut ok = true;
+        for (white, n) in [(attacker_white, 1 + rng.below(2)), (!attacker_white, 1)] {
+            for _ in 0..n {
+                // near the defender's king
+                let (f, r) = (df + rng.below(7) as i8 - 3, dr + rng.below(7) as i8 - 3);
+                if !o::on_board(f, r) || p.b[o::sq(f, r) as usize] != o::EMPTY {
+                    ok = false;
+                    break;
+                }
+                p.b[o::sq(f, r) as usize] = o::mk(*rng.pick(&minors), white);
+            }
+        }
+        if !ok {
+            continue;
+        }
+        p.white_to_move = attacker_white;
+        if !p.is_sane() {
+            continue;
+        }
+        out.add("positions_examined", 1);
+        out.add("minor_piece_endings_examined", 1);
+        if !seen.insert(gen::pos_key(&p)) {
+            continue;
+        }
+        if solve::has_mate_in_1(&p) {
+            out.add("minor_piece_mates_in_one", 1);
+            let root = Root { fen: fen::render6(&p, 0, 1), moves: vec![] };
+            c10_position(out, &root, &p, &mut rng, deep);
+        }
+    }
+    out.end();
     // enumerated K+Q / K+R v K positions (mates in one and two abound, stalemates too)
     out.begin(&json!({"kind":"mate-enum","shard":shard}));
     for _ in 0..nenum {
@@ -1279,6 +1366,7 @@ pub fn run_c10(tier: &str, seed: u64) -> (Check, Agg) {
     chk.need("checkmated roots", agg.c("checkmated_roots"), 5);
     chk.need("stalemated roots", agg.c("stalemated_roots"), 5);
     chk.need("unlimited mate searches", agg.c("unlimited_mate_searches"), 50);
+    chk.need("mates in one with minor pieces only", agg.c("minor_piece_mates_in_one"), 20);
     (chk, agg)
 }
 
